@@ -714,6 +714,11 @@ class Interp(Engine):
             arr = self.heap.get(hk)
             if arr is None:
                 continue
+            if hk[0] in ("ct", "ctlen"):
+                self.heap[hk] = self.fresh("hv_" + "_".join(map(str, hk)), arr.sort())
+                if hk[0] == "ctlen":
+                    self.assume(self.heap[hk] >= 0)
+                continue
             if rs == ALL:
                 self.heap[hk] = self.fresh("hv_" + "_".join(map(str, hk)), arr.sort())
             else:
@@ -771,6 +776,11 @@ class Interp(Engine):
 
     def _note_loop_writes(self, wkey, wset, rec):
         for (hk, rt) in rec:
+            if rt is None:
+                if (hk, ALL) not in wset:
+                    wset[(hk, ALL)] = None
+                    self.loop_w_changed = True
+                continue
             rt = z3.simplify(rt)
             if has_fresh(rt):
                 k = (hk, ALL)
@@ -989,9 +999,10 @@ class Interp(Engine):
         try:
             if c.setup:
                 c.setup(self)
+            slot = None
             if c.traced:
                 params = [k for k in env if k != "self"]
-                self.ct_append(fv.qual, env.get("self"), env.get(params[0]) if params else None)
+                slot = self.ct_append(fv.qual, env.get("self"), env.get(params[0]) if params else None)
             for text in c.requires_at_call():
                 g = self.spec_eval(text)
                 self.cur_line = line
@@ -1015,6 +1026,8 @@ class Interp(Engine):
                     self.assuming -= 1
                 if c.result_fn is not None:
                     res = c.result_fn(self, env)
+                if slot is not None:
+                    self.ct_bind_result(slot, res)
                 return res
             else:
                 exc = c.make_exc(self, which, fv.rel)
